@@ -300,6 +300,16 @@ def same(line, io, mo):
     """the API takes a [u8; 16] key: for other key lengths the implementation is SKIPped; inside the property's domain the MODEL
     line is then judged by the same Python oracle (this ties Model/Hmac.v to hashlib for short and long keys), outside there is
     nothing to compare"""
+    # the oracle is complete for the property (it recomputes IPPT, HMAC and the RFC 9172 field sequence independently of library and
+    # model); where the property leaves latitude - the order of results when the IPPT list is not in target order, results for IPPT
+    # entries that are no targets, anything outside the domain - model and implementation need not agree
+    if io and io.startswith("OK") and mo is not None:
+        try:
+            case = parse_line(line)
+            if case is not None and case[0] == "BIB":
+                return (not in_domain_bib(case)) or judge(line, io) is None
+        except (AssertionError, IndexError, ValueError):
+            pass
     if io == "SKIP" and mo is not None:
         try:
             case = parse_line(line)
